@@ -598,18 +598,18 @@ Proof.
         (P := fun b1 => Inv0 b1 /\ wword b1 = wword b /\ same_cfg b b1).
       { destruct (do_wrap m); cbn [negb].
         - cbn [good]. split; [|split; [reflexivity|unfold same_cfg; prj; auto]].
-          apply Inv0_set_space; [apply Inv0_set_prew, HI0|lia].
+          apply Inv0_set_space; [exact HI0|lia].
         - destruct (N.leb_spec (wwidth b - tlen_ (wline b)) (wslen b)) as [Hle|Hgt].
           + cbn [good]. split; [|split; [reflexivity|unfold same_cfg; prj; auto]].
-            apply Inv0_set_space; [apply Inv0_set_prew, HI0|]. intros H. apply Hst. lia.
+            apply Inv0_set_space; [exact HI0|]. intros H. apply Hst. lia.
           + destruct (N.ltb_spec 0 (wslen b)) as [Hws|Hws].
             * destruct (spacetag b) as [st|] eqn:Est.
               2:{ exfalso. apply Hst; [lia|reflexivity]. }
               cbn [good]. split; [|split; [reflexivity|unfold same_cfg; prj; auto]].
-              apply Inv0_set_space; [|lia]. apply Inv0_set_line; [apply Inv0_set_prew, HI0|].
+              apply Inv0_set_space; [|lia]. apply Inv0_set_line; [exact HI0|].
               prj. split; rewrite tlen_push_wsl, ?raw_push_wsl; lia.
             * cbn [good]. split; [|split; [reflexivity|unfold same_cfg; prj; auto]].
-              apply Inv0_set_prew, HI0. }
+              exact HI0. }
       intros b1 (H1 & H2 & H3). pose proof H3 as (c1 & c2 & c3). rewrite <- c3.
       eapply good_mono.
       { apply (flush_word_tail_ok b1 m H1). rewrite H2. exact Hehw. }
@@ -635,55 +635,55 @@ Proof.
   destruct (N.eqb_spec ((pos + 1) mod 8) 0); lia.
 Qed.
 
-Lemma tab_loop_0_true f b t : tab_loop f b t 0 true = Ok b.
+Lemma tab_loop_0_true f b t tw fl : tab_loop f b t tw 0 true fl = Ok (b, fl).
 Proof. destruct f; reflexivity. Qed.
 
 Lemma cw0_spacel lb : cw0 (spacel lb) = 1.
 Proof. reflexivity. Qed.
 
-Lemma tab_loop_true_ok t : forall f b pos,
+Lemma tab_loop_true_ok t tw : forall f b pos fl,
   Inv0 b -> tlen_ (wline b) <= pos -> (tabm pos <= f)%nat ->
   good (allow_overflow b)
-       (fun b' => (exists tx' ln', b' = set_text_line b tx' ln') /\ Inv0 b')
-       (tab_loop f b t pos true).
+       (fun r => (exists tx' ln', fst r = set_text_line b tx' ln') /\ Inv0 (fst r))
+       (tab_loop f b t tw pos true fl).
 Proof.
-  induction f as [|f IH]; intros b pos HI Hpos Hf.
+  induction f as [|f IH]; intros b pos fl HI Hpos Hf.
   - cbn [tab_loop]. unfold tabm in Hf.
     destruct (N.eqb_spec (pos mod 8) 0) as [Ez|Enz]; cbn [negb orb].
-    + cbn [good]. split; [|exact HI]. exists (wtext b), (wline b).
+    + cbn [good fst]. split; [|exact HI]. exists (wtext b), (wline b).
       rewrite set_text_line_id. reflexivity.
     + lia.
   - cbn [tab_loop]. pose proof HI as (HW & [Hl1 Hl2] & Htx & Hst).
     destruct (N.eqb_spec (pos mod 8) 0) as [Ez|Enz]; cbn [negb orb].
-    + cbn [good]. split; [|exact HI]. exists (wtext b), (wline b).
+    + cbn [good fst]. split; [|exact HI]. exists (wtext b), (wline b).
       rewrite set_text_line_id. reflexivity.
     + destruct (N.eqb_spec (wwidth b) 0) as [Hz0|_]; [lia|].
       destruct (N.leb_spec (wwidth b) pos) as [Hfull|Hroom].
       * destruct (flush_line_ok _ HI) as (tx' & ln' & E & HI2 & Hz).
-        rewrite E. cbn [bind]. rewrite tab_loop_0_true. cbn [good].
+        rewrite E. cbn [bind]. rewrite tab_loop_0_true. cbn [good fst].
         split; [|exact HI2]. exists tx', ln'. reflexivity.
       * eapply good_mono.
-        { apply (IH (set_line b (tl_push_char (wline b) (spacel L_space) t)) (pos + 1)).
+        { apply (IH (set_line b (tl_push_char (wline b) (spacel L_space) t)) (pos + 1) fl).
           - apply Inv0_set_line; [exact HI|].
             split; rewrite tlen_push_char, ?raw_push_char, cw0_spacel; lia.
           - prj. rewrite tlen_push_char, cw0_spacel. lia.
           - pose proof (tabm_succ pos Enz). lia. }
-        intros b' ((tx' & ln' & Eb) & HIb). split; [|exact HIb].
+        intros r ((tx' & ln' & Eb) & HIb). split; [|exact HIb].
         exists tx', ln'. rewrite Eb. reflexivity.
 Qed.
 
-Lemma tab_loop_false_ok t f b pos :
+Lemma tab_loop_false_ok t tw f b pos fl :
   Inv0 b -> tlen_ (wline b) <= pos -> (10 <= f)%nat ->
   good (allow_overflow b)
-       (fun b' => (exists tx' ln', b' = set_text_line b tx' ln') /\ Inv0 b')
-       (tab_loop f b t pos false).
+       (fun r => (exists tx' ln', fst r = set_text_line b tx' ln') /\ Inv0 (fst r))
+       (tab_loop f b t tw pos false fl).
 Proof.
   intros HI Hpos Hf. destruct f as [|f]; [lia|].
   cbn [tab_loop]. rewrite orb_true_r. pose proof HI as (HW & [Hl1 Hl2] & Htx & Hst).
-  assert (Hpush : forall b0 p, Inv0 b0 -> tlen_ (wline b0) <= p -> p < wwidth b0 ->
+  assert (Hpush : forall t b0 p, Inv0 b0 -> tlen_ (wline b0) <= p -> p < wwidth b0 ->
             Inv0 (set_line b0 (tl_push_char (wline b0) (spacel L_space) t)) /\
             tlen_ (wline (set_line b0 (tl_push_char (wline b0) (spacel L_space) t))) <= p + 1).
-  { intros b0 p HI0 Hp Hlt. pose proof HI0 as (_ & [Hl1' Hl2'] & _). split.
+  { intros t0 b0 p HI0 Hp Hlt. pose proof HI0 as (_ & [Hl1' Hl2'] & _). split.
     - apply Inv0_set_line; [exact HI0|].
       split; rewrite tlen_push_char, ?raw_push_char, cw0_spacel; lia.
     - prj. rewrite tlen_push_char, cw0_spacel. lia. }
@@ -694,17 +694,17 @@ Proof.
     cbn [tab_loop]. rewrite orb_true_r. prj.
     destruct (N.eqb_spec (wwidth b) 0) as [Hz1|_]; [lia|].
     destruct (N.leb_spec (wwidth b) 0) as [Hbad|_]; [lia|].
-    destruct (Hpush (set_text_line b tx' ln') 0 HI2) as [HI3 Hp3]; [prj; lia | prj; lia |].
+    destruct (Hpush tw (set_text_line b tx' ln') 0 HI2) as [HI3 Hp3]; [prj; lia | prj; lia |].
     eapply good_mono.
-    { apply (tab_loop_true_ok t f _ (0 + 1) HI3 Hp3).
+    { apply (tab_loop_true_ok tw tw f _ (0 + 1) true HI3 Hp3).
       pose proof (tabm_le (0 + 1)). lia. }
-    intros b' ((tx'' & ln'' & Eb) & HIb). split; [|exact HIb].
+    intros r ((tx'' & ln'' & Eb) & HIb). split; [|exact HIb].
     exists tx'', ln''. rewrite Eb. reflexivity.
-  - destruct (Hpush b pos HI Hpos Hroom) as [HI3 Hp3].
+  - destruct (Hpush t b pos HI Hpos Hroom) as [HI3 Hp3].
     eapply good_mono.
-    { apply (tab_loop_true_ok t f _ (pos + 1) HI3 Hp3).
+    { apply (tab_loop_true_ok t tw f _ (pos + 1) fl HI3 Hp3).
       pose proof (tabm_le (pos + 1)). lia. }
-    intros b' ((tx'' & ln'' & Eb) & HIb). split; [|exact HIb].
+    intros r ((tx'' & ln'' & Eb) & HIb). split; [|exact HIb].
     exists tx'', ln''. rewrite Eb. reflexivity.
 Qed.
 
@@ -763,9 +763,16 @@ Proof.
         apply Inv0_set_prew, Inv0_set_space; [exact HI2|lia].
       * destruct (cp c =? 9).
         -- eapply good_bind.
-           { apply (tab_loop_false_ok t 40 b (tlen_ (wline b) + wslen b) HI0); lia. }
-           intros b2 ((tx' & ln' & E) & HI2). subst b2. cbn [good fst].
-           split; [|unfold same_cfg; prj; auto]. apply Inv_lines; assumption.
+           { apply (tab_loop_false_ok t (if is_pre m then t2 else t) 40 b
+                      (tlen_ (wline b) + wslen b) false HI0); lia. }
+           intros [b2 fl2] ((tx' & ln' & E) & HI2). cbn [fst snd] in *. subst b2.
+           cbv zeta. cbn [good fst].
+           assert (HI3 : Inv (set_text_line b tx' ln')) by (apply Inv_lines; assumption).
+           destruct (is_pre m && fl2).
+           ++ split; [|unfold same_cfg; prj; auto].
+              apply Inv_iff in HI3. destruct HI3 as (A & B & C).
+              apply Inv_iff. prj. split; [apply Inv0_set_prew, A|auto].
+           ++ split; [exact HI3|unfold same_cfg; prj; auto].
         -- destruct (cw c) as [cwidth|].
            ++ destruct (N.ltb_spec (wwidth b) (tlen_ (wline b) + wslen b + cwidth)) as [Hov|Hfit].
               ** destruct (flush_line_ok (set_space b (spacetag b) 0)) as (tx' & ln' & E & HI2 & Hz).
@@ -967,17 +974,19 @@ Proof.
   - intros b' [= <-]. reflexivity.
 Qed.
 
-Theorem tab_loop_total b t pos one :
-  Inv b -> tlen_ (wline b) <= pos -> total_post b (tab_loop 40 b t pos one).
+(* tab_loop now returns (block, crossed-the-width flag); the statement is about the block. *)
+Theorem tab_loop_total b t tw pos one fl :
+  Inv b -> tlen_ (wline b) <= pos ->
+  total_post b (do r <- tab_loop 40 b t tw pos one fl; Ok (fst r)).
 Proof.
   intros HI Hpos. pose proof HI as HI'. apply Inv_iff in HI'. destruct HI' as (HI0 & _).
   apply good_total.
-  apply good_mono with
-    (P := fun b' => (exists tx' ln', b' = set_text_line b tx' ln') /\ Inv0 b').
+  eapply good_bind with
+    (P := fun r => (exists tx' ln', fst r = set_text_line b tx' ln') /\ Inv0 (fst r)).
   - destruct one.
     + apply tab_loop_true_ok; [exact HI0|exact Hpos|]. pose proof (tabm_le pos). lia.
     + apply tab_loop_false_ok; [exact HI0|exact Hpos|lia].
-  - intros b' ((tx' & ln' & E) & HI2). subst b'.
+  - intros r ((tx' & ln' & E) & HI2). cbn [good]. rewrite E in *.
     split; [apply Inv_lines; assumption|unfold same_cfg; prj; auto].
 Qed.
 
